@@ -349,7 +349,7 @@ func (env *Env) tr(e Expr) Val {
 		if n.cur == nil {
 			n.cur = env.st
 		}
-		return n.tr(x.X)
+		return n.value(n.tr(x.X))
 	case *ESel:
 		// qualified constant pkg.Name?
 		if id, ok := x.X.(*EIdent); ok {
@@ -653,7 +653,7 @@ func (env *Env) quant(q *EQuant) Val {
 		for _, tr := range q.Triggers {
 			var ts []string
 			for _, t := range tr {
-				ts = append(ts, inner.tr(t).S)
+				ts = append(ts, inner.trTrigger(t))
 			}
 			pats = append(pats, ":pattern ("+strings.Join(ts, " ")+")")
 		}
@@ -664,6 +664,32 @@ func (env *Env) quant(q *EQuant) Val {
 		kw = "forall"
 	}
 	return Val{fmt.Sprintf("(%s (%s) %s)", kw, strings.Join(decl, " "), bs), tBool}
+}
+
+// trTrigger: a quantifier pattern must be a term without connectives; `k in m` uses the bare select.
+func (env *Env) trTrigger(e Expr) string {
+	if b, ok := e.(*EBinary); ok && b.Op == "in" {
+		k := env.tr(b.X)
+		c := env.tr(b.Y)
+		if c.G.Set != nil {
+			k = env.adapt(env.value(k), *c.G.Set)
+			return fmt.Sprintf("(select %s %s)", c.S, k.S)
+		}
+		c = env.value(c)
+		if mt, ok := c.G.T.Underlying().(*types.Map); ok {
+			k = env.adapt(env.value(k), GType{T: mt.Key()})
+			hasA, _, _ := env.ex.mapTerms(env.st, c.S, mt)
+			return fmt.Sprintf("(select %s %s)", hasA, k.S)
+		}
+	}
+	if o, ok := e.(*EOld); ok {
+		n := env.inState(env.old)
+		if n.cur == nil {
+			n.cur = env.st
+		}
+		return n.trTrigger(o.X)
+	}
+	return env.tr(e).S
 }
 
 func (env *Env) call(c *ECall) Val {
@@ -732,7 +758,15 @@ func (env *Env) call(c *ECall) Val {
 		}
 		xv := env.adapt(env.value(arg(1)), GType{T: st.Elem()})
 		arr := fmt.Sprintf("(select %s (s.arr %s))", env.ex.compGet(env.st, g.arrComp(st.Elem())), s.S)
-		return Val{fmt.Sprintf("(exists ((ei Int)) (! (and (<= 0 ei) (< ei (s.len %s)) (= (select %s (sl.ix %s ei)) %s)) :pattern ((select %s (sl.ix %s ei)))))", s.S, arr, s.S, xv.S, arr, s.S), tBool}
+		// absolute position ep in the backing array (stable under reslicing); the last conjunct names the
+		// index-relative form of the same position so that index-style quantifiers match the witness.
+		// (inside old(...) the bridge is omitted: bridging both the pre- and the post-state lists lets
+		// "kept"/"no new element" style facts feed each other for ever — a matching loop.)
+		bridge := fmt.Sprintf(" (= ep (sl.ix %s (- ep (s.off %s))))", s.S, s.S)
+		if env.cur != nil {
+			bridge = ""
+		}
+		return Val{fmt.Sprintf("(exists ((ep Int)) (! (and (<= (s.off %s) ep) (< ep (+ (s.off %s) (s.len %s))) (= (select %s ep) %s)%s) :pattern ((select %s ep))))", s.S, s.S, s.S, arr, xv.S, bridge, arr), tBool}
 	case "union", "minus", "inter":
 		need(2)
 		a, b := arg(0), arg(1)
@@ -845,7 +879,8 @@ func (env *Env) call(c *ECall) Val {
 		if env.cur == nil {
 			return arg(0)
 		}
-		return env.inState(env.cur).tr(c.Args[0])
+		ne := env.inState(env.cur)
+		return ne.value(ne.tr(c.Args[0]))
 	case "mi": // mathematical integer value of a machine integer
 		need(1)
 		v := env.value(arg(0))
